@@ -1366,12 +1366,23 @@ func ruleALLOCBOUND(w *World, r *Report) {
 		for _, f := range region(fn) {
 			for _, b := range f.Blocks {
 				for _, in := range b.Instrs {
-					mk, ok := in.(*ssa.MakeSlice)
-					if !ok {
+					var mk ssa.Instruction
+					var opnds []ssa.Value
+					switch x := in.(type) {
+					case *ssa.MakeSlice:
+						mk, opnds = x, []ssa.Value{x.Len, x.Cap}
+					case *ssa.Call:
+						// (*bytes.Buffer).Grow(n), slices.Grow(s, n), strings.Builder.Grow(n): allocations too
+						cn := calleeName(&x.Call)
+						if strings.HasSuffix(cn, ".Grow") && len(x.Call.Args) > 0 {
+							mk, opnds = x, []ssa.Value{x.Call.Args[len(x.Call.Args)-1]}
+						}
+					}
+					if mk == nil {
 						continue
 					}
 					var size ssa.Value
-					for _, opnd := range []ssa.Value{mk.Len, mk.Cap} {
+					for _, opnd := range opnds {
 						backSlice(opnd, func(v ssa.Value) bool {
 							if isSize(v) {
 								size = v
